@@ -285,7 +285,7 @@ Qed.
 (* ---- FORMAT DATATYPE=STANDARD SYMBOLS="T" [MISSING=?] ---- *)
 
 Arguments parse_symbols : simpl never.
-Arguments parse_format : simpl nomatch.
+Arguments parse_format : simpl never.
 
 Lemma parse_symbols_one : forall T r, is_eol T = false -> ucase T = T -> text_eqb T t_dq = false -> T <> [] ->
   parse_symbols false [] (T :: t_dq :: r) = Ok (T, r).
@@ -294,6 +294,64 @@ Proof.
   assert (I : is_infix T [] = false) by (destruct T; [contradiction | reflexivity]).
   rewrite I. cbn [app]. fold parse_symbols. reflexivity.
 Qed.
+
+Lemma parse_format_eq : forall f st token toks,
+  parse_format (S f) st token toks =
+    let cap := x_cap st in
+    let next st' r := do x <- req_tok cap r ;; let (t, r') := x in parse_format f st' (ucase t) r' in
+    if text_eqb token t_semi then Ok (st, toks)
+    else if text_eqb token kw_DATATYPE then
+      do x <- req_tok cap toks ;;
+      let (e, r) := x in
+      if negb (text_eqb e t_eq) then Err ParseErr
+      else
+        do y <- req_tok cap r ;;
+        let (v0, r1) := y in
+        let v := ucase v0 in
+        let st' :=
+          if text_eqb v kw_DNA || text_eqb v kw_NUCLEOTIDES then set_dtype st DtDna
+          else if text_eqb v kw_RNA then set_dtype st DtRna
+          else if text_eqb v kw_NUCLEOTIDE then set_dtype st DtNucleotide
+          else if text_eqb v kw_PROTEIN then set_dtype st DtProtein
+          else if text_eqb v kw_CONTINUOUS then set_dtype st DtContinuous
+          else set_symbols (set_dtype st DtStandard) digits09 in
+        next st' r1
+    else if text_eqb token kw_SYMBOLS then
+      do x <- req_tok cap toks ;;
+      let (e, r) := x in
+      if negb (text_eqb e t_eq) then Err ParseErr
+      else
+        do y <- req_tok cap r ;;
+        let (q, r1) := y in
+        if negb (text_eqb q t_dq) then Err ParseErr
+        else
+          do z <- parse_symbols cap [] r1 ;;
+          let (syms, r2) := z in
+          next (set_symbols st syms) r2
+    else if text_eqb token kw_GAP || text_eqb token kw_MISSING || text_eqb token kw_MATCHCHAR then
+      do x <- req_tok cap toks ;;
+      let (e, r) := x in
+      if negb (text_eqb e t_eq) then Err ParseErr
+      else
+        do y <- req_tok cap r ;;
+        let (v0, r1) := y in
+        let v := ucase v0 in
+        next (if text_eqb token kw_GAP then set_gap st v
+              else if text_eqb token kw_MISSING then set_missing st v
+              else set_match st [v; lcase v]) r1
+    else if text_eqb token kw_INTERLEAVE then
+      do x <- req_tok cap toks ;;
+      let (e0, r) := x in
+      let e := ucase e0 in
+      if text_eqb e t_eq then
+        do y <- req_tok cap r ;;
+        let (v0, r1) := y in
+        let v := ucase v0 in
+        next (set_interleave st (negb (match v with 78 :: _ => true | _ => false end))) r1
+      else parse_format f (set_interleave st true) e r
+    else if text_eqb token kw_BEGIN then Err ParseErr
+    else next st toks.
+Proof. reflexivity. Qed.
 
 Section StepsStd.
 Variables (ns : list text) (ntax nchar0 : option Z) (dt0 : dtype) (sy : text)
@@ -306,11 +364,16 @@ Lemma pf_standard : forall f T (amb : list tok) rest,
     (t_eq :: kw_STANDARD :: kw_SYMBOLS :: t_eq :: t_dq :: T :: t_dq :: amb ++ t_semi :: rest)
   = Ok (mkNX ns ntax nchar0 DtStandard T t_dash t_qm mt il false cs ti lk, rest).
 Proof.
-  intros f T amb rest He Hu Hq Hn [A|A]; subst amb; cbn; rewrite (parse_symbols_one T _ He Hu Hq Hn); cbn; reflexivity.
+  intros f T amb rest He Hu Hq Hn [A|A]; subst amb.
+  - rewrite parse_format_eq. cbn. norm_st.
+    rewrite parse_format_eq. cbn. rewrite (parse_symbols_one T _ He Hu Hq Hn). cbn. norm_st.
+    rewrite parse_format_eq. cbn. reflexivity.
+  - rewrite parse_format_eq. cbn. norm_st.
+    rewrite parse_format_eq. cbn. rewrite (parse_symbols_one T _ He Hu Hq Hn). cbn. norm_st.
+    rewrite parse_format_eq. cbn. norm_st.
+    rewrite parse_format_eq. cbn. reflexivity.
 Qed.
-
 End StepsStd.
-Arguments parse_format : simpl never.
 
 (* ---- the whole block, DATATYPE=STANDARD ---- *)
 
@@ -332,14 +395,14 @@ Variable lower : text -> text.
 Lemma parse_matrix_standard : forall fuel ns nt nchar T mt il cs ti lk R,
   nt <> 0 -> nchar <> 0 ->
   nongap T <> [] -> NoDup T -> (forall c, In c T -> caseless_char c /\ c <> 63) ->
-  parse_matrix lower fuel (mkNX ns (Some nt) (Some nchar) DtStandard T t_dash t_qm mt il false cs ti lk) R
+  parse_matrix lower keep_ns fuel (mkNX ns (Some nt) (Some nchar) DtStandard T t_dash t_qm mt il false cs ti lk) R
   = do x <- matrix_loop lower fuel (mkNX ns (Some nt) (Some nchar) DtStandard T t_dash t_qm mt il false cs ti lk)
                         (built_alphabet T) nchar [] None R ;;
     let '(st', a', rows, rest) := x in
     Ok (st', mkBR DtStandard a' (map (fun r => (nth (fst r) (x_ns st') [], snd r)) rows) (x_ns st')
                   (x_title st') (x_link st'), rest).
 Proof.
-  intros. unfold parse_matrix. cbn [x_ntax x_nchar x_dtype x_symbols x_gap x_missing nonzero].
+  intros. unfold parse_matrix, keep_ns. cbn [x_ntax x_nchar nonzero bind x_link x_ns]. norm_st. cbn [x_dtype x_symbols x_gap x_missing].
   apply Z.eqb_neq in H. apply Z.eqb_neq in H0. rewrite H, H0.
   rewrite build_alphabet_ok by assumption. reflexivity.
 Qed.
@@ -390,7 +453,7 @@ Theorem nexus_standard_roundtrip_l : forall (dt : dtype) (a : alphabet) (sym_ord
   rectangular nchar m = true ->
   exists toks st' b rows',
     write_chars_block dt [a] sym_order (mkNW simple None None) m = Ok toks
-    /\ read_chars_block lower
+    /\ read_chars_block lower keep_ns
          (if simple then nx_init [] None cs else nx_init (map fst m) (Some (len m)) cs) toks
        = Ok (st', [mkBR DtStandard b rows' (map fst m) None None], [EOL; EOL; EOL])
     /\ map fst rows' = map fst m
